@@ -1,5 +1,6 @@
 import CC.Lemmas.Edits
 import CC.Lemmas.Leb
+import CC.Lemmas.World
 /-! # C03 — access decisions stay correct across access-structure edits
 
 Rights are named by attribute *identifiers*; the theorems show that identifiers are permanent
@@ -82,6 +83,13 @@ generally points with different id sets give different rights -/
 theorem distinct_ids_distinct_rights (p q : List Nat) (h : ¬ p.Perm q) :
     Right.fromPoint p ≠ Right.fromPoint q :=
   fun he => h ((Right.fromPoint_eq_iff p q).1 he)
+
+/-- in every world reachable through the API (edits interleaved with updates, rekeys, prunes, key
+generations and refreshes) the access structure is well formed: dimension names and attribute
+names are unique and **no identifier is shared by two attributes** — so the rights of different
+attribute sets are different byte strings, and a new attribute never inherits another's rights -/
+theorem reachable_structure_wf (w : World) (hw : Reachable w) :
+    w.msk.structure_.WF ∧ w.msk.structure_.IdsBelow := reachable_struct_wf w hw
 
 /-- non-vacuity: delete then add — the new attribute gets a new identifier (2), not the deleted one's (0) -/
 example : (Struct.empty.run [.addDim "D" false, .addAttr "D" "A" false none, .addAttr "D" "B" false none,
